@@ -5,6 +5,7 @@ import json
 import random
 
 import c04_config as K
+import c04_prior as R
 import common as C
 import hist
 import progs as P
@@ -89,6 +90,8 @@ def run_one(pl):
     try:
         if pl.get("config"):
             return K.run_config_history(pl["events"], pl["store"])
+        if pl.get("prior"):
+            return R.run_prior_history(pl["events"], pl["store"])
         return hist.run_history(pl["events"], store_kind=pl["store"])
     except Exception as e:  # noqa
         return {"error": str(e)[-1000:]}
@@ -98,6 +101,7 @@ def run(rep, tier, seed, proof_ok):
     n = 9 if tier == "quick" and proof_ok else 72
     n_steps = 2 if tier == "quick" else 4
     n_cfg = 2 * len(K.SHAPES) * (1 if tier == "quick" and proof_ok else 4)
+    prior_plans = R.draw_plans(seed, tier, tier == "quick" and proof_ok)
     rep.rule = (f"{n} random pipelines (kept paths of 1..3 segments with shared directories) x edit histories of {n_steps} steps x store kinds "
                 "{local, local+object-cache, memory} (+ histories in which another process evaluates an edited copy of the code on the same "
                 "store between two evaluations of a long-lived process); after every evaluation each path kept so far is loaded through dds.load from a "
@@ -112,6 +116,18 @@ def run(rep, tier, seed, proof_ok):
                 "file under the data directory and its link inspected - a path kept by the latest evaluation must serve the value of the "
                 "dds-free reference through a link inside the internal directory of that evaluation, also once the other internal "
                 "directories are gone; a path not kept again retains what it served; "
+                f"+ {len(prior_plans)} histories in which ONE PROCESS uses dds in other ways before the evaluation whose commit is checked "
+                f"({sum(len(p['cells']) for p in prior_plans)} steps = preceding call x call style of the evaluation that follows, over "
+                f"{len(R.PRIORS)} kinds of preceding call x {{dds.eval, top-level dds.keep, data function called directly}}; preceding calls, of "
+                "the entry point or of a node below it: nothing / dds.eval under each proper prefix of the stage order / full evaluation with "
+                "dds_export_graph or dds_extra_debug / failing evaluations (a user function raising an Exception or BaseException subclass "
+                "in code reloaded into the process, too many arguments, a kept path nested under another, a graph export that cannot be written, "
+                "an ill-formed stage list) / dds.load of a kept or never kept path; x {fresh store, paths kept by an earlier process with the "
+                "previous version of the code, that edit reloaded into the process that kept them} x {local, local+object-cache}): after "
+                "every evaluation each path is loaded in the process itself and, by ANOTHER process started at that moment, through dds.load "
+                "and from the file under the data directory (beyond the quick tier also after every preceding call) - it must serve what the "
+                "dds-free reference keeps there when the dry runs and the failing calls are left out (C15, C10: they commit nothing and leave "
+                "no trace for the next evaluation), and every call must end as the plain execution does (dry run without eval stage: None); "
                 "distinct = distinct (history, probe); non-trivial = probe of a path that has been committed")
     kinds = ["local", "local+lru", "memory"]
     plans = [plan(seed * 1000 + i, n_steps, kinds[i % 3]) for i in range(n)]
@@ -119,6 +135,8 @@ def run(rep, tier, seed, proof_ok):
     # store configuration changing inside the history: every shape x {new process, same process}, store kinds alternating
     plans += [K.plan_config(seed * 1000 + 700 + j + len(K.SHAPES) * r, K.SHAPES[j], ["local", "local+lru"][(j + r + r // 2) % 2], bool(r % 2))
               for r in range(n_cfg // len(K.SHAPES)) for j in range(len(K.SHAPES))]
+    # what the process did with dds before the evaluation whose commit is checked (dry runs, failures, exports, loads)
+    plans += prior_plans
     # minimised past failures first
     import glob
     import os
@@ -142,6 +160,8 @@ def run(rep, tier, seed, proof_ok):
         results = list(ex.map(run_one, plans))
     nprobe = {"load": 0, "rawfile": 0, "linkinfo": 0}
     ncfg = {"histories": 0, "in_process": 0, "by_shape": {}, "probes": 0, "probes_of_committed_paths": 0, "probes_after_a_directory_was_deleted": 0}
+    nprior = {"histories": 0, "steps": {}, "base": {}, "evaluations": 0, "preceding_calls": 0, "probes": 0, "probes_of_committed_paths": 0,
+              "probes_in_the_same_process": 0, "probes_not_judged_after_a_violation": 0}
     for pl, recs in zip(plans, results):
         if isinstance(recs, dict):
             rep.violation("harness-error:c04", "history could not be run: " + recs["error"][-300:], {"events": pl["events"]}, no_input=True)
@@ -163,6 +183,30 @@ def run(rep, tier, seed, proof_ok):
             ncfg["probes_after_a_directory_was_deleted"] += st["after_retire"]
             rep.sample({"store": pl["store"], "entry": pl["call"], "paths": pl["paths"], "configuration_shape": pl["shape"],
                         "in_process": pl["in_process"]}, cap=5)
+            continue
+        if pl.get("prior"):
+            problems, st = R.judge(recs, pl["store"])
+            for key, what, i in problems:
+                rep.violation(key, what, {"prior": True, "events": pl["events"], "action": i, "store": pl["store"], "steps": pl["cells"],
+                                          "base": pl["base"], "arrival": pl["arrival"]}, no_input=key.startswith("harness-error"))
+            for i, committed in st["cases"]:
+                rep.case(f"{pl['seed']}:{i}", nontrivial=committed)
+            for k in ("load", "rawfile"):
+                nprobe[k] += st[k]
+            nprobe["load"] += st["same_process_load"]
+            nprior["histories"] += 1
+            for kind, style in pl["cells"]:
+                nprior["steps"][f"{kind} -> {style}"] = nprior["steps"].get(f"{kind} -> {style}", 0) + 1
+            b = pl["base"] + (":" + pl["arrival"] if pl["arrival"] else "")
+            nprior["base"][b] = nprior["base"].get(b, 0) + 1
+            nprior["evaluations"] += st["evaluations"]
+            nprior["preceding_calls"] += st["priors"]
+            nprior["probes"] += len(st["cases"])
+            nprior["probes_of_committed_paths"] += sum(1 for _, c in st["cases"] if c)
+            nprior["probes_in_the_same_process"] += st["same_process_load"]
+            nprior["probes_not_judged_after_a_violation"] += st["not_judged"]
+            rep.sample({"store": pl["store"], "entry": pl["call"], "paths": pl["paths"], "steps (preceding call, call style)": pl["cells"],
+                        "base": pl["base"], "arrival_of_the_edit": pl["arrival"]}, cap=7)
             continue
         last_model_load = {}
         for i, r in enumerate(recs):
@@ -190,12 +234,15 @@ def run(rep, tier, seed, proof_ok):
                     rep.violation("file-wrong:" + pl["store"], f"the file under the data directory for {a['path']} holds {r['impl']['out'][:80]} but the latest "
                                   f"evaluation kept {r['ref']['out'][:80]}", {"events": pl["events"], "action": i, "store": pl["store"]})
         rep.sample({"store": pl["store"], "entry": pl["call"], "paths": pl["paths"]}, cap=3)
-    rep.extra["input_distribution"] = {"histories": len(plans), "probes": nprobe, "store_configuration_histories": ncfg}
+    rep.extra["input_distribution"] = {"histories": len(plans), "probes": nprobe, "store_configuration_histories": ncfg,
+                                       "same_process_histories": nprior}
 
 
 def replay(path):
     r = json.load(open(path))["replay"]
     if r.get("config"):
         return K.replay(r)
+    if r.get("prior"):
+        return R.replay(r)
     import c01
     return c01.replay(path)
